@@ -57,6 +57,9 @@ type Hooks struct {
 	// cursor the translator keeps overwriting - the generator-loop idiom; the callbacks are
 	// documented to run once, inside the constructing call.
 	LitViaFunc bool
+	// NamesTable states the real package names through ONE ImportNames table (instead of one
+	// ImportName call per import) and then overwrites the table, as a caller that reuses its map does.
+	NamesTable bool
 }
 
 // grp builds one list construct on s.
@@ -746,6 +749,12 @@ func (c *Conv) funcDeclOn(st *Statement, d *ast.FuncDecl) *Statement {
 func (c *Conv) File(af *ast.File, realName func(path string) string) *File {
 	f := NewFile(af.Name.Name)
 	c.pkgs = map[string]string{}
+	table := map[string]string{}
+	defer func() {
+		for k := range table {
+			table[k] = "zzoverwritten"
+		}
+	}()
 	for _, is := range af.Imports {
 		path, err := strconv.Unquote(is.Path.Value)
 		if err != nil {
@@ -767,7 +776,11 @@ func (c *Conv) File(af *ast.File, realName func(path string) string) *File {
 				c.Skip = "unknown package name for " + path
 				continue
 			}
-			f.ImportName(path, n)
+			if c.Hooks.NamesTable {
+				table[path] = n
+			} else {
+				f.ImportName(path, n)
+			}
 			c.pkgs[n] = path
 		case is.Name.Name == "_":
 			f.Anon(path)
@@ -777,6 +790,9 @@ func (c *Conv) File(af *ast.File, realName func(path string) string) *File {
 			f.ImportAlias(path, is.Name.Name)
 			c.pkgs[is.Name.Name] = path
 		}
+	}
+	if c.Hooks.NamesTable && len(table) > 0 {
+		f.ImportNames(table)
 	}
 	for _, d := range af.Decls {
 		switch d := d.(type) {
